@@ -103,7 +103,7 @@ impl World {
             session_present,
             reason_code: 0,
             session_expiry: t.session_expiry,
-            receive_maximum: t.receive_maximum,
+            receive_maximum: self.cfg.receive_maximum_for(self.conns_opened),
             maximum_qos: t.maximum_qos,
             retain_available: t.retain_available,
             maximum_packet_size: t.maximum_packet_size,
@@ -237,7 +237,7 @@ impl World {
         if result.is_err() && timed_out && !hostile_now {
             // the operation was failed by its ack timeout and forgotten; the server's (legitimate) late acknowledgement is then treated as a protocol violation
             let kind = result.clone().err().unwrap();
-            self.violate("C11", format!("late-ack-after-ack-timeout rejected as {:?}", kind), format!("ack type {} id {} for tag {:?}, which had been failed by its ack timeout, made incoming-data handling return {:?}: a server that follows the protocol is reported as violating it and the connection is dropped", ptype_n, pending.id, pending.tag, kind));
+            self.violate("C11", "late-ack-after-ack-timeout rejected".to_string(), format!("ack type {} id {} for tag {:?}, which had been failed by its ack timeout, made incoming-data handling return {:?}: a server that follows the protocol is reported as violating it and the connection is dropped", ptype_n, pending.id, pending.tag, kind));
             self.result_common("incoming(ack)", &result, true);
         } else {
             self.result_common("incoming(ack)", &result, false);
